@@ -238,7 +238,7 @@ pub fn gen_graph(p: &GraphParams, rng: &mut Rng) -> GraphSpec {
                             Wrap::None
                         }
                     }
-                    LoadKind::LoadCss => *rng.pick(&[Wrap::None, Wrap::Rule, Wrap::If, Wrap::Mixin]),
+                    LoadKind::LoadCss => *rng.pick(&[Wrap::None, Wrap::Rule, Wrap::If, Wrap::Mixin, Wrap::Each]),
                     _ => Wrap::None,
                 }
             };
@@ -248,5 +248,6 @@ pub fn gen_graph(p: &GraphParams, rng: &mut Rng) -> GraphSpec {
         stmts.insert(pos, if p.c03 { Stmt::ModuleVars } else { Stmt::Marker });
         files.push(FileSpec { path: paths[i].clone(), stmts });
     }
-    GraphSpec { files, extra_dirs, bases, fmt: Fmt::draw(rng) }
+    let merge_imports = rng.chance(1, 3);
+    GraphSpec { files, extra_dirs, bases, fmt: Fmt::draw(rng), merge_imports }
 }
